@@ -55,6 +55,14 @@ func ruleFuncValuesOfCorrectType(observers *Events, addError AddErrFunc, disable
 		case ast.IntValue:
 			if !value.Definition.OneOf("Int", "Float", "ID") {
 				unexpectedTypeMessage(addError, value)
+			} else if err == nil && value.Definition.Name == "Int" {
+				// (a literal beyond 64 bits has been reported above)
+				if _, err := strconv.ParseInt(value.Raw, 10, 32); err != nil {
+					addError(
+						Message(`Int cannot represent non 32-bit signed integer value: %s`, value.String()),
+						At(value.Position),
+					)
+				}
 			}
 
 		case ast.FloatValue:
